@@ -354,7 +354,8 @@ def build(repo=None):
                     src = v.closure.get(g.generators[0].iter.id) if isinstance(g.generators[0].iter, ast.Name) else None
                     if isinstance(src, Tup):
                         cond_ok = len(g.generators[0].ifs) == 1 and ast.unparse(g.generators[0].ifs[0]).replace(" ", "") == f"{g.generators[0].target.id}isnot_not_made" and ast.unparse(g.elt) == g.generators[0].target.id
-                        e.oblige(s, "C15:union:members-that-are-not-made-are-filtered-out", z3.BoolVal(cond_ok))
+                        if not cond_ok:
+                            e.oblige(s, "C15:union:members-that-are-not-made-are-filtered-out", z3.BoolVal(False))
                         return [(s, Tup([x for x in src.items if x is not not_made]))]
                 return None
 
@@ -419,6 +420,7 @@ def build(repo=None):
                     eng.oblige(s1, "C15:getitem:D[Union[A,B],s]-is-Union[D[A,s],D[B,s]]-member-wise-in-order", z3.BoolVal(okk and [c[0].tag for c in used[-2:]] == ["member0", "member1"]))
                 elif at_kind == "union1-survivor":
                     eng.oblige(s1, "C15:getitem:a-single-surviving-member-is-returned-unwrapped", z3.BoolVal(v is made.get("member0")))
+                    eng.oblige(s1, "C15:union:members-that-are-not-made-are-filtered-out", z3.BoolVal(v is not not_made and [c[0].tag for c in used[-2:]] == ["member0", "member1"]))
             collect(st.obl, ["C14", "C15"])
 
     # ================================================================== R3: the nesting tail (C15)
@@ -545,8 +547,33 @@ def build(repo=None):
             return [(s, Z("bool", SomePrefix))]
 
         eng.method_models["any()"] = m_any
+
+        def m_all(e, s, g, node):
+            # all(<test>(dim) for dim in dims): the quantifier is cut at an arbitrary index k -- the element test must be exactly "dims[k] is a multi-axis dim"
+            if not (isinstance(g, Fn) and isinstance(g.node, ast.GeneratorExp) and len(g.node.generators) == 1 and not g.node.generators[0].ifs and isinstance(g.node.generators[0].target, ast.Name)):
+                return None
+            gen = g.node.generators[0]
+            s_c = s.clone()
+            s_c.env = dict(g.closure or s.env)
+            (s_i, itv), = e.ev(gen.iter, s_c)
+            if not (isinstance(itv, Z) and itv.kind == "seq:dim" and itv.t.eq(dims)):
+                return None
+            s1 = s_c.clone()
+            s1.pc += [0 <= kk, kk < nd_]
+            s1.env[gen.target.id] = Z("dim", dims[kk])
+            for s2, tv in e.ev(g.node.elt, s1):
+                if is_raised(tv):
+                    e.oblige(s2, "C15:scalar:the-dim-test-does-not-raise", z3.BoolVal(False))
+                    continue
+                t_k = e.truth(s2, tv)
+                e.oblige(s2, "C15:scalar:loop-continues-only-past-multi-axis-dims", z3.Implies(t_k, AC.is_variadic(dtp, dims[kk])))
+                e.oblige(s2, "C15:scalar:returns-False-at-the-first-single-axis-dim", z3.Implies(z3.Not(t_k), z3.Not(AC.is_variadic(dtp, dims[kk]))))
+                s.obl = s2.obl
+            return [(s, Z("bool", AllVar(nd_)))]
+
+        eng.method_models["all()"] = m_all
         loops = [x for x in ast.walk(cs) if isinstance(x, ast.For)]
-        if len(loops) != 1:
+        if len(loops) > 1:
             raise Unsupported("_check_scalar: expected one loop")
 
         def lh(e, node, s0):
@@ -567,7 +594,8 @@ def build(repo=None):
             outs.append((s3, NORMAL))
             return outs
 
-        eng.loop_specs[id(loops[0])] = lh
+        if loops:
+            eng.loop_specs[id(loops[0])] = lh
         st = State()
         pa = [a.arg for a in cs.args.args]
         st.env = {pa[0]: Z("str", z3.String("scalar_prefix")), pa[1]: any_dt if dt_any else names, pa[2]: Z("seq:dim", dims)}
